@@ -51,13 +51,16 @@ def gen_case(rnd, tier: str, i: Any) -> Dict[str, Any]:
     first_step = gen_sim.pick_first_step(rnd)
     n_steps = rnd.choice([0, 1, 2, 3])
     files = {}
+    exotic = rnd.random() < 0.3
     ragged = n_ranks > 1 and n_steps >= 2 and rnd.random() < 0.3     # ranks that recorded different (non-empty) subsets of the steps
     for r in range(n_ranks):
         fs, ns = first_step, n_steps
         if ragged and r > 0:
             ns = rnd.randint(1, n_steps)
             fs = first_step + rnd.randint(0, n_steps - ns)
-        p = gen_sim.random_params(rnd, tier, rank=r, first_step=fs, n_steps=ns)
+        # exotic: copies / memsets / kernels issued through calls outside the analyser's list (blocking cudaMemcpy, cudaMemset,
+        # cudaMemcpy2DAsync, cudaGraphLaunch ...): linked pairs that are not rows of these statistics
+        p = gen_sim.random_params(rnd, tier, rank=r, first_step=fs, n_steps=ns, exotic_launch=exotic)
         tr = gen_sim.gen_trace(rnd, **p)
         gen_sim.drop_events(rnd, tr, p_launch=rnd.choice([0, 0, 0.15]), p_kernel=rnd.choice([0, 0, 0.15]))
         files[f"rank{r}.json"] = tr
@@ -65,7 +68,9 @@ def gen_case(rnd, tier: str, i: Any) -> Dict[str, Any]:
     # multi-step histories: other read-only analyses called on the same TraceAnalysis object before the statistics
     pre = rnd.sample(PRE_CALLS, rnd.choice([0, 0, 1, 2, 3]))
     return {"files": files, "cfg": {"ranks": ranks, "include_memory_events": rnd.random() < 0.6, "pre_calls": pre,
-                                    "inc_last": rnd.random() < 0.4}}
+                                    "inc_last": rnd.random() < 0.4,
+                                    # the rank list as user code has it: python ints, numpy integers (np.arange, Series.unique()), or a mix
+                                    "rank_type": rnd.choice(["int", "int", "np64", "np32", "mixed"])}}
 
 
 def fixed_cases(tier: str):
@@ -102,7 +107,12 @@ def run_case(case: Dict[str, Any], ctx: Any) -> core.CaseResult:
             res.counters["pre_calls"] += 1
         if cfg.get("pre_calls"):
             res.counters["calls_after_history"] += 1
-        ok, out = drv.guard(res, "get_cuda_kernel_launch_stats", ta.get_cuda_kernel_launch_stats, ranks=cfg["ranks"],
+        import numpy as np
+        rt = cfg.get("rank_type", "int")
+        ranks_arg = [np.int64(r) if rt == "np64" or (rt == "mixed" and k % 2) else np.int32(r) if rt == "np32" else r for k, r in enumerate(cfg["ranks"])]
+        if rt != "int":
+            res.counters["calls_with_numpy_integer_ranks"] += 1
+        ok, out = drv.guard(res, "get_cuda_kernel_launch_stats", ta.get_cuda_kernel_launch_stats, ranks=ranks_arg,
                             include_memory_events=cfg["include_memory_events"], visualize=False)
         if not ok:
             return res
